@@ -288,10 +288,6 @@ func getAvailableFieldsForValue(v cue.Value, blockedRootFields []string) (fields
 			continue
 		}
 
-		if checkIfValueInList(fldName, blockedRootFields) {
-			continue
-		}
-
 		// Strip leading and trailing quotation marks from names:
 		if strings.HasPrefix(fldName, `"`) && strings.HasSuffix(fldName, `"`) {
 			fldName = strings.TrimPrefix(fldName, `"`)
@@ -300,6 +296,11 @@ func getAvailableFieldsForValue(v cue.Value, blockedRootFields []string) (fields
 
 		fldName = strings.TrimSuffix(fldName, "?")
 		fldName = strings.TrimSuffix(fldName, "!")
+
+		// the blocked fields are listed by name: compare the name, not the selector text with its `?` / `!` mark
+		if checkIfValueInList(fldName, blockedRootFields) {
+			continue
+		}
 
 		fields = append(fields, fldName)
 	}
